@@ -131,7 +131,45 @@ Section Untouched.
     destruct x; try apply HC.
     match goal with |- context [beqb ?a s_absent] => destruct (beqb a s_absent) end; [apply HS | apply HC].
   Qed.
+
+  (* decoding is a function of the dictionary alone: handing the SAME dictionary
+     to from_dict a second time (the caller's dictionary as the first call left
+     it) gives the same outcome - same object or same error *)
+  Theorem decode_twice : forall c v, from_dict c (snd (from_dict c v)) = from_dict c v.
+  Proof. intros c v. rewrite input_untouched. reflexivity. Qed.
+
+  Theorem decode_twice_BaseContent : forall v,
+    fd_BaseContent idf dateparse (snd (fd_BaseContent idf dateparse v)) = fd_BaseContent idf dateparse v.
+  Proof. intro v. rewrite input_untouched_BaseContent. reflexivity. Qed.
 End Untouched.
+
+(* a mutant kept as a witness that the two statements above have content:
+   SkippedContent.from_dict WITHOUT its private copy (d.pop("data", None) on the
+   caller's dictionary) drops the key from the argument, and an invalid
+   dictionary that is rejected the first time is accepted the second time *)
+Definition fd_SkippedContent_nocopy (idf : cls -> fields -> result bytes) (v : pyval) : result pyval * pyval :=
+  on_dict AttributeError v
+    (bind (pop_opt k_data) (fun dt =>
+       match dt with
+       | Some x => if is_none x then construct_d idf cSkippedContent else fail ValueError
+       | None => construct_d idf cSkippedContent
+       end)).
+
+Definition skipped_row (data : pyval) : pyval :=
+  VDict [(VStr k_sha1, VNone); (VStr k_sha1_git, VNone); (VStr k_sha256, VNone); (VStr k_blake2s256, VNone);
+         (VStr k_length, VInt 3); (VStr k_status, VStr s_absent); (VStr k_reason, VStr s_absent); (VStr k_data, data)].
+
+Theorem skipped_nocopy_refuted :
+  (exists v, snd (fd_SkippedContent_nocopy (fun _ _ => Ok []) v) <> v) /\
+  (exists v, let r1 := fd_SkippedContent_nocopy (fun _ _ => Ok []) v in
+             fst r1 = Err ValueError /\
+             exists o, fst (fd_SkippedContent_nocopy (fun _ _ => Ok []) (snd r1)) = Ok o).
+Proof.
+  split.
+  - exists (skipped_row VNone). vm_compute. intro H. discriminate H.
+  - exists (skipped_row (VBytes [1])). split; [vm_compute; reflexivity|]. eexists. vm_compute. reflexivity.
+Qed.
+
 
 (* ------------------------------------------------------------------ the result of a program depends on the variable only *)
 Section CurDet.
